@@ -91,7 +91,7 @@ pub fn decode(src: &mut Source) -> Box<dyn Case> {
                     let l = if src.chance(1, 10) { 65536 } else { src.below(13) };
                     ops.push(Op::Limit(IDS[s], l));
                 }
-                3 => ops.push(Op::Markers(IDS[s], src.pick(&["", "<", "[[", "*"]).to_string(), src.pick(&["", ">", "]]", "*"]).to_string())),
+                3 => ops.push(Op::Markers(IDS[s], src.pick(&["", "<", "[[", "*", "<em>", "«", "【", "é"]).to_string(), src.pick(&["", ">", "]]", "*", "</em>", "»", "】", "é"]).to_string())),
                 _ => {
                     live[s] = None;
                     ops.push(Op::Destroy(IDS[s]));
